@@ -41,7 +41,18 @@ func (pid *PeerID) UnmarshalText(data []byte) error {
 	if len(data) != enc.EncodedLen(len(pid)) {
 		return errors.New("data is wrong length")
 	}
-	enc.Decode(pid[:], data)
+	var tmp PeerID
+	// Strict: the final character must not carry non-zero padding bits,
+	// otherwise several texts would decode to the same id.
+	n, err := enc.Strict().Decode(tmp[:], data)
+	if err != nil {
+		return err
+	}
+	if n != len(tmp) {
+		// the decoder skips newlines, which would leave the id short
+		return errors.New("data does not decode to a full id")
+	}
+	*pid = tmp
 	return nil
 }
 
